@@ -130,7 +130,7 @@ def gen_plan(prop, run_seed, tier):
                 seed=w.randrange(2**31), n_chunks=s.choice([1, 1, 2, 3, 4, n_plates, n_plates + 1, n_plates + 4, 16]),
                 batch_mode=s.choice(["none", "none", "unobserved", "unobserved", "observed", "mixed", "all"]),
                 order_seed=s.randrange(2**31), policy=policy, k=s.randint(1, 3), path=s.choice(["cli", "func", "func-shared"]),
-                tie_mode=w.choice(["distinct", "ties", "ties", "neginf", "all-equal"]), max_chunk=w.choice([1, 2, 50]))
+                tie_mode=w.choice(["distinct", "ties", "ties", "neginf", "all-equal", "near-ties", "near-ties"]), max_chunk=w.choice([1, 2, 50]))
 
 
 def execute(prop, plan):
@@ -213,6 +213,12 @@ def _run(plan, scratch, log, stats, violation):
                 table[p] = 4.0
             elif tm == "neginf":
                 table[p] = -math.inf if rnd.random() < 0.4 else rnd.choice(pool)
+            elif tm == "near-ties":
+                # distinct scores that a tolerance would call equal: one ulp apart, 1e-9 relative, below 1e-8 absolute
+                base, kind = (3.0, rnd.randrange(3)) if p % 2 else (1e5, 1)
+                k = rnd.randrange(-3, 4)
+                table[p] = [float(np.nextafter(base, base + k) if k else base) if abs(k) == 1 else base + k * 2.0 ** -50 * base,
+                            base * (1 + k * 1e-9), k * 1e-9][kind]
             else:
                 table[p] = rnd.choice(pool)
     RS.config = dict(kind=plan["scorer"], table=table, max_chunk=plan["max_chunk"])
